@@ -177,7 +177,9 @@ type c02Case struct {
 
 func (st *c02Stack) smtpSend(cs *c02Case) (replies []string, err error) {
 	var out bytes.Buffer
-	fmt.Fprintf(&out, "HELO %s\r\nMAIL FROM:<%s>\r\nRCPT TO:<%s@%s>\r\nDATA\r\n", c02HeloFor(cs.mb), c02Sender, cs.mb, c02Domain)
+	// ESMTP parameters a client may put on MAIL: whatever it declares about the body, the bytes it transmits are what is stored
+	params := []string{"", "", " BODY=8BITMIME", " BODY=7BIT", " body=7bit", " SIZE=1 BODY=7BIT", " AUTH=<>", " BODY=BINARYMIME", " BODY=7BIT AUTH=<>"}[(len(cs.body)+len(cs.wire)+len(cs.mb))%9]
+	fmt.Fprintf(&out, "HELO %s\r\nMAIL FROM:<%s>%s\r\nRCPT TO:<%s@%s>\r\nDATA\r\n", c02HeloFor(cs.mb), c02Sender, params, cs.mb, c02Domain)
 	out.Write(cs.wire)
 	out.WriteString(cs.tail)
 	id := int(atomic.AddInt64(&st.sid, 1))
